@@ -92,13 +92,13 @@ type Client struct {
 	Objs    map[Key]map[string]interface{}
 	GetErr  map[Key]error
 	Calls   []Call
-	Outcome func(c *Call) error                                               // outcome of a write; nil = success
-	OnList  func(list client.ObjectList, opts *client.ListOptions) error      // answers List
-	Apply   bool                                                              // apply successful writes to Objs (simple store semantics)
+	Outcome func(c *Call) error                                          // outcome of a write; nil = success
+	OnList  func(list client.ObjectList, opts *client.ListOptions) error // answers List
+	Apply   bool                                                         // apply successful writes to Objs (simple store semantics)
 	// SpecWriteBumpsGeneration: like the API server, a successful non-dry-run Update or Patch touching spec increments
 	// metadata.generation, and the client writes the response back into the object that was passed in.
 	SpecWriteBumpsGeneration bool
-	scheme  *runtime.Scheme
+	scheme                   *runtime.Scheme
 }
 
 func NewClient() *Client {
@@ -259,8 +259,8 @@ func (c *Client) Writes() []Call {
 // Cache is a dynamic-cache double: a reader plus Watch/Free recording.
 type Cache struct {
 	*Client
-	Watched []string
-	Freed   []Key
+	Watched           []string
+	Freed             []Key
 	WatchErr, FreeErr error
 }
 
